@@ -7,7 +7,7 @@ from ..core import call_real
 
 ID = "C07"
 LEAN_MODULE = "CKT.Props.C07Spec"
-THEOREMS = ["CKT.C08Wire.optimize_result_is_planW", "CKT.C08Wire.child_linkW", "CKT.C08Wire.goal_feasibleW"] + ["CKT.C07." + t for t in [
+THEOREMS = ["CKT.C07Gen.registered", "CKT.C07Gen.run_eq_model", "CKT.C07Gen.actionList_translated", "CKT.C08Wire.optimize_result_is_planW", "CKT.C08Wire.child_linkW", "CKT.C08Wire.goal_feasibleW"] + ["CKT.C07." + t for t in [
     "returned_cuts_feasible",
     "find_idx", "step_accounting", "path_accounting", "reachable_gamma", "multiqubitGates_idx_nodup", "export_overhead",
     "init_inv", "merge_inv", "newWire_inv", "step_inv", "path_inv", "reachable_width", "export_nonmarkers", "export_cuts_spec",
@@ -70,6 +70,13 @@ def _mixed_order_cases():
             out.append({"nq": 4, "instrs": instrs, "seed": 3 + k, "max_gamma": 1024.0, "max_backjumps": bj, "gate_lo": True, "wire_lo": True,
                         "width": 3, "exact": True, "always_oracle": True})
     return out
+
+
+def regenerate():
+    """the five search actions, translated from cut_finding/cutting_actions.py on every run"""
+    from ..translate import actions
+    from ..core import REPO, LEAN
+    actions.regenerate(REPO, LEAN)
 
 
 def cases(rng, tier):
